@@ -22,7 +22,8 @@ TRUSTED = [
     "model (Section variables); the harness supplies the answers of the platform's socket.inet_aton/inet_pton "
     "(general address parsing is property C01)",
     "iprange_to_cidrs is a parameter of the glob model (property C05); the executable instance used for the "
-    "correspondence (greedy aligned blocks) is compared with the real iprange_to_cidrs on every run (cmd to_cidrs)",
+    "correspondence (maximal aligned trie blocks; proved to meet the assumed specification, C17_to_cidrs_exec) is "
+    "compared with the real iprange_to_cidrs on every run (cmd to_cidrs)",
 ]
 
 M32 = 2 ** 32 - 1
